@@ -1,6 +1,7 @@
 SPECIFICATION Spec
 CONSTANTS
-  Fams = {"argmax", "reduce", "softmax"}
+  Fams = {"argmax", "reduce", "softmax", "long"}
+  LongShapes <- LongShapesThorough
   MaxRank = 4
   MaxExt = 3
 INVARIANT Laws
